@@ -5,8 +5,16 @@ Domain : signatures of 0-4 parameters with a generated suffix of defaults; calls
          `start f as $r` + `match $r.Finished()`; values = scalars/None/bools/strings/lists/dicts as literals or passed
          through an event payload; callee echoes its parameters, reassigns parameters and a local that also exists in
          the caller, returns an expression of them; two sibling instances interleaved by events.
-Oracle : Python reference binder (positional -> named -> default -> None) + straight-line evaluation of the callee.
+         Fourth call form `activate f ...`: the callee waits for Tick() after its echo, then runs the rest of its body
+         (in-place append to defaulted lists, parameter reassignments incl. `$p = [$p]`, return) and is restarted; 0-3 restarts;
+         optionally a second activation of the same flow with another argument subset (omits some / adds some / same values /
+         one differs / mixed), issued by main or by two helper flows; plus an enumerated activation family.
+Oracle : Python reference binder (positional -> named -> default -> None) + straight-line evaluation of the callee; for
+         activations: every activation with its own binding owns an instance that echoes exactly that binding at activation
+         and after every restart.
 """
+import json
+
 from hypothesis import strategies as st
 
 from vf import smh
@@ -17,11 +25,22 @@ LEVEL = "exploration"
 CASE_TIMEOUT = 30
 RULE = (
     "signature: 0-4 params p0..p3, a generated suffix has literal defaults; call: k<=n positional values then a subset of the "
-    "remaining params by name; syntax simple|classic; form assign-await|await|start-ref; values drawn from None/bool/int/float/"
+    "remaining params by name; syntax simple|classic; form assign-await|await|start-ref|activate; values drawn from None/bool/int/float/"
     "str (quotes, newlines, $, braces)/list/dict (depth<=2), as literals or via the payload of a received event; callee: send "
     "Echo(all params), (when the flow is called twice) append in place to list parameters that received their default, reassign some params and the local $loc (also set in the caller), return literal | param | list of params "
-    "| dict of params; in half of the cases the callee is an @override of a base flow declaring another signature (names from p0..p3,q0,q1, other order/count/defaults, before or after the override); sibling leg: two instances of one flow interleaved by events, each changing its own variables. "
-    "Non-trivial = the call mixes >=2 of {positional, named, defaulted} or passes a container/None/bool; distinct by case."
+    "| dict of params; a drawn subset of params is also reassigned from its own value ($p = [$p]); in half of the cases the callee is an @override of a base flow declaring another signature (names from p0..p3,q0,q1, other order/count/defaults, before or after the override); sibling leg: two instances of one flow interleaved by events, each changing its own variables. "
+    "Form activate (1/4 of the calls): `activate f ...` from main or from a helper flow started by main; the callee waits for Tick() after its "
+    "echo, then runs the rest of its body (in half of these cases it appends in place to list parameters that received their default) and ends, "
+    "so that it is restarted: 0-3 Ticks = restarts, each restarted instance must echo the binding of its activation again (arguments by "
+    "position / by name / defaulted / omitted, after the body reassigned them). In half of the activate cases a SECOND activation of the same "
+    "flow follows, built relative to the first: omits-some (proper subset of the first one's arguments, same values), adds-some (all of them + "
+    "arguments for parameters the first one left to their default), same-values (any k2 positional + named subset repeating the values the first "
+    "one bound), one-differs, mixed; bindings that differ -> two instances, each echoing its own binding at activation and after every restart; "
+    "identical bindings -> one or two instances, every echo shows that binding. Enumerated family (464 cases): 3 signatures x every provision "
+    "(positional/named/omitted per parameter) of the first activation x (none | every provision of a second one, same values) x restarts, the body "
+    "reassigning the first and wrapping the last parameter. "
+    "Non-trivial = the call mixes >=2 of {positional, named, defaulted} or passes a container/None/bool, or two activations with different "
+    "bindings, or a restart after a parameter was reassigned; distinct by case."
 )
 ASSUMPTIONS = [
     "never more positional arguments than parameters (surplus rejection is a mechanism, not part of the statement)",
@@ -29,8 +48,15 @@ ASSUMPTIONS = [
     "defaults are literals (evaluated without access to caller variables)",
     "literal strings never contain `$`, `{` or `}` (string interpolation is language syntax); such texts are passed through event payloads instead",
     "in simple call syntax a list literal is never a positional argument (`f 0 [1]` parses as a subscript); `$x = await f` is only used with flows that `return` a value",
+    "an activated callee always waits for an event (Tick) before it ends - how often a flow that ends without waiting is restarted is outside the statement; its return value is not observed",
+    "two activations with identical bindings are one flow configuration (docs: 'can only be activated once'); whether one or two instances run is not C08's matter - "
+    "only that every instance echoes that binding; activations whose bindings differ only by True/1/1.0 are skipped (whether these are identical parameters is unspecified)",
+    "order of the echoes of two activated instances within one processing step is not asserted (compared as multisets)",
 ]
 WALL = {"quick": 150, "thorough": 1500}
+# `activate` x in-place append to defaulted list parameters (case field `mutate_defaults`): found C08-F28 (the restarted instance
+# saw the appended element; fixed in the repo, repro replays/known/C08/activated-restart-mutated-default.json)
+ACTIVATE_MUTATES_DEFAULTS = True
 
 
 def budget(tier):
@@ -66,7 +92,7 @@ def _case(draw):
     k = draw(st.integers(0, n))
     via_event = draw(st.booleans())
     syntax = draw(st.sampled_from(["simple", "classic"]))
-    form = draw(st.sampled_from(["assign", "await", "startref"]))
+    form = draw(st.sampled_from(["assign", "await", "startref", "activate"]))
     argval = value if via_event else lit_value
     # `f 0 [1]` is read as the subscript expression `0[1]`: a list literal is never a positional argument in simple syntax
     posval = argval if via_event or syntax == "classic" else lit_value.filter(lambda v: not isinstance(v, list))
@@ -89,7 +115,7 @@ def _case(draw):
         ret["names"] = [draw(st.sampled_from([p["name"] for p in sig]))]
     elif ret_kind in ("list", "dict"):
         ret["names"] = draw(st.lists(st.sampled_from([p["name"] for p in sig] + ["loc"]), min_size=1, max_size=3))
-    return {
+    case = {
         "leg": "call",
         "sig": sig,
         "pos": pos,
@@ -107,7 +133,71 @@ def _case(draw):
         # the callee is an `@override` of a base flow that declares another signature (other names, order, count, defaults):
         # the override's own declaration is the one that binds
         "override": draw(st.none() | _base_sig()),
+        # parameters the callee reassigns from their own value (`$p = [$p]`, after the literal reassignments): a value that
+        # leaks into another instance compounds
+        "wrap": draw(st.lists(st.sampled_from([p["name"] for p in sig]), unique=True, max_size=2)) if sig else [],
     }
+    if form == "activate":
+        # an ACTIVATED flow: started by `activate f ...`, waits for Tick(), runs the rest of its body and is restarted when it
+        # ends; `ticks` = number of restarts observed; `second` = another activation of the same flow with another argument subset
+        case["repeat"] = False
+        case["ticks"] = draw(st.integers(0, 3))
+        case["act_from"] = draw(st.sampled_from(["main", "helpers"]))
+        case["mutate_defaults"] = ACTIVATE_MUTATES_DEFAULTS and draw(st.booleans())
+        case["second"] = draw(st.none() | _second(sig, k, named, _bind(sig, pos, named), argval, posval, via_event or syntax == "classic"))
+    return case
+
+
+def _split(draw, sig, prov, list_pos_ok):
+    """Splits the provided arguments {name: value} into k positional values (a drawn prefix of the signature) + named ones."""
+    kmax = 0
+    for p in sig:
+        if p["name"] not in prov or (isinstance(prov[p["name"]], list) and not list_pos_ok):
+            break  # (a list literal is never a simple-syntax positional argument)
+        kmax += 1
+    k = draw(st.integers(0, kmax))
+    return [prov[p["name"]] for p in sig[:k]], {p["name"]: prov[p["name"]] for p in sig[k:] if p["name"] in prov}
+
+
+@st.composite
+def _second(draw, sig, k1, named1, env1, argval, posval, list_pos_ok):
+    """A second activation of the same flow, built relative to the first one.
+    omits-some : provides a proper subset of the first one's arguments, same values (positional or by name)
+    adds-some  : provides all of the first one's arguments (same values) + some of the parameters the first one omitted
+    same-values: k2 positional + a named subset of the rest, every value repeats what the first activation BOUND to that parameter
+    one-differs / mixed: as same-values, but one / a drawn subset of the provided values are new"""
+    names = [p["name"] for p in sig]
+    provided1 = names[:k1] + [nm for nm in names[k1:] if nm in named1]
+    omitted1 = [nm for nm in names if nm not in provided1]
+    mode = draw(st.sampled_from((["omits-some"] if provided1 else []) + (["adds-some"] if omitted1 else []) + ["same-values", "one-differs", "mixed"]))
+    if mode == "omits-some":
+        drop = draw(st.lists(st.sampled_from(provided1), unique=True, min_size=1))
+        pos2, named2 = _split(draw, sig, {nm: env1[nm] for nm in provided1 if nm not in drop}, list_pos_ok)
+        return {"mode": mode, "pos": pos2, "named": named2}
+    if mode == "adds-some":
+        add = draw(st.lists(st.sampled_from(omitted1), unique=True, min_size=1))
+        prov = {nm: (env1[nm] if nm in provided1 else draw(argval)) for nm in names if nm in provided1 or nm in add}
+        pos2, named2 = _split(draw, sig, prov, list_pos_ok)
+        return {"mode": mode, "pos": pos2, "named": named2}
+    k2 = draw(st.integers(0, len(sig)))
+    rest = names[k2:]
+    named_names = draw(st.lists(st.sampled_from(rest), unique=True, max_size=len(rest))) if rest else []
+    provided = names[:k2] + named_names
+    if mode == "same-values" or not provided:
+        fresh = set()
+    elif mode == "one-differs":
+        fresh = {draw(st.sampled_from(provided))}
+    else:
+        fresh = set(draw(st.lists(st.sampled_from(provided), unique=True)))
+
+    def val(nm, positional):
+        v = draw(posval if positional else argval) if nm in fresh else env1[nm]
+        if positional and isinstance(v, list) and not list_pos_ok:
+            # a list literal is never a simple-syntax positional argument (`posval` excludes lists in that setting)
+            v = draw(posval)
+        return v
+
+    return {"mode": mode, "pos": [val(nm, True) for nm in names[:k2]], "named": {nm: val(nm, False) for nm in named_names}}
 
 
 @st.composite
@@ -124,26 +214,104 @@ def strategy(tier):
     return _case()
 
 
-def _callee_model(case):
-    """Reference binder + straight-line evaluation."""
+def _provisions(names):
+    """All ways to provide arguments: k positional + a subset of the remaining parameters by name."""
+    out = []
+    for k in range(len(names) + 1):
+        rest = names[k:]
+        for mask in range(1 << len(rest)):
+            out.append((k, [nm for i, nm in enumerate(rest) if mask >> i & 1]))
+    return out
+
+
+def enumerate_cases(tier):
+    """Activation family: three signatures x every argument provision (positional / named / omitted per parameter) of a first
+    activation x (no second activation | every provision of a second one, same values) x restarts; the body reassigns parameters."""
+    sigs = [
+        ([{"name": "p0"}, {"name": "p1", "default": 5}], (0, 2)),
+        ([{"name": "p0", "default": "d0"}, {"name": "p1", "default": [2]}], (0, 2)),
+        ([{"name": "p0"}, {"name": "p1"}, {"name": "p2", "default": None}], (1,)),
+    ]
+    vals = {"p0": 7, "p1": "one", "p2": [3]}
+    i = 0
+    for sig, tick_choices in sigs:
+        names = [p["name"] for p in sig]
+        provs = _provisions(names)
+        for k1, named1 in provs:
+            for sec in [None] + provs:
+                for ticks in tick_choices:
+                    i += 1
+                    list_positional = any(isinstance(vals[nm], list) for nm in names[: max(k1, sec[0] if sec else 0)])
+                    yield {
+                        "leg": "call",
+                        "sig": sig,
+                        "pos": [vals[nm] for nm in names[:k1]],
+                        "named": {nm: vals[nm] for nm in named1},
+                        "syntax": "classic" if list_positional or i % 2 else "simple",
+                        "form": "activate",
+                        "via_event": False,
+                        "assigns": [[names[0], "reassigned"], ["loc", 1]],
+                        "ret": {"kind": "list", "names": names},
+                        "caller_loc": "main-loc",
+                        "repeat": False,
+                        "flow_name": "f" if i % 3 else "do thing",
+                        "override": None,
+                        "wrap": [names[-1]],
+                        "ticks": ticks,
+                        "act_from": "helpers" if i % 4 == 0 else "main",
+                        "mutate_defaults": i % 2 == 0,
+                        "second": None if sec is None else {"mode": "enumerated", "pos": [vals[nm] for nm in names[: sec[0]]], "named": {nm: vals[nm] for nm in sec[1]}},
+                    }
+
+
+def _bind(sig, pos, named):
+    """Reference binder: positional -> named -> declared default -> None."""
     env = {}
-    for i, p in enumerate(case["sig"]):
-        if i < len(case["pos"]):
-            env[p["name"]] = case["pos"][i]
-        elif p["name"] in case["named"]:
-            env[p["name"]] = case["named"][p["name"]]
+    for i, p in enumerate(sig):
+        if i < len(pos):
+            env[p["name"]] = pos[i]
+        elif p["name"] in named:
+            env[p["name"]] = named[p["name"]]
         elif "default" in p:
             env[p["name"]] = p["default"]
         else:
             env[p["name"]] = None
+    return env
+
+
+def _mutates(case):
+    """The callee appends in place to the list parameters that received their declared default."""
+    return bool(case.get("repeat") or case.get("mutate_defaults"))
+
+
+def _mutated(case):
+    """Names of the parameters the callee appends to in place: those that received their declared list default (in every
+    activation, when there are two: the same body runs in both instances)."""
+    if not _mutates(case):
+        return []
+    calls = [(case["pos"], case["named"])]
+    if case.get("second"):
+        calls.append((case["second"]["pos"], case["second"]["named"]))
+    return [
+        p["name"]
+        for i, p in enumerate(case["sig"])
+        if isinstance(p.get("default"), list) and all(i >= len(pos) and p["name"] not in named for pos, named in calls)
+    ]
+
+
+def _callee_model(case, pos=None, named=None):
+    """Reference binder + straight-line evaluation."""
+    pos = case["pos"] if pos is None else pos
+    named = case["named"] if named is None else named
+    env = _bind(case["sig"], pos, named)
     echo = dict(env)
-    if case.get("repeat"):
-        for i, p in enumerate(case["sig"]):
-            if i >= len(case["pos"]) and p["name"] not in case["named"] and isinstance(p.get("default"), list):
-                env[p["name"]] = list(p["default"]) + [99]
+    for nm in _mutated(case):
+        env[nm] = list(env[nm]) + [99]
     env["loc"] = "callee-local"
     for target, val in case["assigns"]:
         env[target] = val
+    for nm in case.get("wrap", ()):
+        env[nm] = [env[nm]]
     r = case["ret"]
     if r["kind"] == "none":
         ret = None
@@ -161,6 +329,8 @@ def _callee_model(case):
 def _program(case):
     lit = smh.lit
     name = case["flow_name"]
+    activate = case["form"] == "activate"
+    second = case.get("second") if activate else None
     sig = " ".join(f"${p['name']}" + (f"={lit(p['default'])}" if "default" in p else "") for p in case["sig"])
     lines = [f"flow {name} {sig}".rstrip()]
     base = []
@@ -168,20 +338,21 @@ def _program(case):
         bsig = " ".join(f"${p['name']}" + (f"={lit(p['default'])}" if "default" in p else "") for p in case["override"]["sig"])
         base = [f"flow {name} {bsig}".rstrip(), "  send BaseRan()", ""]
         lines = (base if case["override"]["first"] else []) + ["@override"] + lines
-    def _mutated(i, p):
-        return bool(case.get("repeat")) and i >= len(case["pos"]) and p["name"] not in case["named"] and isinstance(p.get("default"), list)
-
+    mutated = _mutated(case)
     # a list that is appended to afterwards is echoed as a copy (`$p + []`): the event would otherwise alias the mutated object
-    echo_args = ", ".join(f"{p['name']}=${p['name']}" + (" + []" if _mutated(i, p) else "") for i, p in enumerate(case["sig"]))
+    echo_args = ", ".join(f"{p['name']}=${p['name']}" + (" + []" if p["name"] in mutated else "") for p in case["sig"])
     lines.append(f"  send Echo({echo_args})")
-    if case.get("repeat"):
-        for i, p in enumerate(case["sig"]):
-            omitted = i >= len(case["pos"]) and p["name"] not in case["named"]
-            if omitted and isinstance(p.get("default"), list):
-                lines.append(f"  (${p['name']}.append(99))")
+    if activate:
+        # an activated flow waits before it goes on (and is restarted once it has ended)
+        lines.append("  match Tick()")
+    for p in case["sig"]:
+        if p["name"] in mutated:
+            lines.append(f"  (${p['name']}.append(99))")
     lines.append('  $loc = "callee-local"')
     for target, val in case["assigns"]:
         lines.append(f"  ${target} = {lit(val)}")
+    for nm in case.get("wrap", ()):
+        lines.append(f"  ${nm} = [${nm}]")
     r = case["ret"]
     if r["kind"] == "literal":
         lines.append(f"  return {lit(r['value'])}")
@@ -192,12 +363,7 @@ def _program(case):
     elif r["kind"] == "dict":
         lines.append("  return {" + ", ".join(f'"{nm}": ${nm}' for nm in dict.fromkeys(r["names"])) + "}")
     lines += [""] + (base if case.get("override") and not case["override"]["first"] else [])
-    lines += ["flow main", f"  $loc = {lit(case['caller_loc'])}"]
-    for p in case["sig"]:
-        lines.append(f'  ${p["name"]} = "caller-{p["name"]}"')
     payload = {}
-    if case["via_event"]:
-        lines.append("  match In() as $e")
 
     def arg(v, key):
         if case["via_event"]:
@@ -205,16 +371,34 @@ def _program(case):
             return f"$e.{key}"
         return lit(v)
 
-    pos = [arg(v, f"v{i}") for i, v in enumerate(case["pos"])]
-    named = [(nm, arg(v, f"n_{nm}")) for nm, v in case["named"].items()]
-    if case["syntax"] == "simple":
-        call = " ".join([name] + pos + [f"${nm}={a}" for nm, a in named])
-    else:
-        call = f"{name}(" + ", ".join(pos + [f"{nm}={a}" for nm, a in named]) + ")"
+    def render(pos_vals, named_vals, kp, kn):
+        pos = [arg(v, f"{kp}{i}") for i, v in enumerate(pos_vals)]
+        named = [(nm, arg(v, f"{kn}_{nm}")) for nm, v in named_vals.items()]
+        if case["syntax"] == "simple":
+            return " ".join([name] + pos + [f"${nm}={a}" for nm, a in named])
+        return f"{name}(" + ", ".join(pos + [f"{nm}={a}" for nm, a in named]) + ")"
+
+    call = render(case["pos"], case["named"], "v", "n")
+    call2 = render(second["pos"], second["named"], "w", "m") if second else None
+    helpers = activate and case.get("act_from") == "helpers"
+    if helpers:
+        # the activations are issued by two other flows (the activated flow is their child, not main's)
+        for tag, c in (("a", call), ("b", call2)):
+            if c is not None:
+                lines += [f"flow act {tag}" + (" $e" if case["via_event"] else ""), f"  activate {c}", "  match Never()", ""]
+    lines += ["flow main", f"  $loc = {lit(case['caller_loc'])}"]
+    for p in case["sig"]:
+        lines.append(f'  ${p["name"]} = "caller-{p["name"]}"')
+    if case["via_event"]:
+        lines.append("  match In() as $e")
+    helper_arg = "($e)" if case["via_event"] else ""
     if case["form"] == "assign":
         lines.append(f"  $x = await {call}")
     elif case["form"] == "await":
         lines.append(f"  await {call}")
+        lines.append("  $x = None")
+    elif activate:
+        lines.append(f"  start act a{helper_arg}" if helpers else f"  activate {call}")
         lines.append("  $x = None")
     else:
         lines.append(f"  start {call} as $r")
@@ -225,8 +409,12 @@ def _program(case):
     if case.get("repeat"):
         lines.append(f"  await {call}")
         lines.append("  send Done2()")
+    if second:
+        lines.append(f"  start act b{helper_arg}" if helpers else f"  activate {call2}")
+        lines.append("  send Done2()")
     lines += ["  match Never()", ""]
-    return "\n".join(lines), payload
+    verb = {"assign": "$x = await ", "await": "await ", "startref": "start ", "activate": "activate "}[case["form"]]
+    return "\n".join(lines), payload, [verb + c for c in (call, call2) if c is not None]
 
 
 def _strip(e):
@@ -279,16 +467,43 @@ def _siblings(case):
     return ok(nt=nt, labels=["siblings"], view={"leg": "siblings", "vals": v, "order": case["order"]})
 
 
+def _skey(x):
+    """Type-strict canonical text of a value (True, 1 and 1.0 differ)."""
+    return json.dumps(x, sort_keys=True)
+
+
+def _check_echos(phase, got, b1, b2, identical, call_desc, observed):
+    got = sorted(got, key=_skey)
+    observed.append(got)
+    if b2 is None:
+        exp = [b1]
+    elif identical:
+        exp = [b1] * max(1, min(2, len(got)))
+    else:
+        exp = sorted([b1, b2], key=_skey)
+    if got != exp:
+        if phase == "activation":
+            kind = "binding"
+        else:
+            kind = "restart-binding"
+        return kind, f"{call_desc}: {phase}: the running instances echoed {got}, expected {exp}" + (" (one or two instances)" if identical else "")
+    return None
+
+
 def prop(case):
     if case["leg"] == "siblings":
         return _siblings(case)
-    text, payload = _program(case)
+    text, payload, calls = _program(case)
     echo_exp, ret_exp = _callee_model(case)
+    activate = case["form"] == "activate"
+    second = case.get("second") if activate else None
     state = smh.init(text)
     events = list(state.outgoing_events)
     if case["via_event"]:
         events = smh.feed(state, smh.ev("In", **payload))
-    call_desc = text.split("flow main")[0].split("\n")[0] + " | " + [l.strip() for l in text.split("\n") if "await " in l or "start " in l][0]
+    call_desc = text.split("flow main")[0].split("\n")[0] + " | " + " | ".join(calls)
+    if activate and case.get("act_from") == "helpers":
+        call_desc += " (each activation issued by a flow started from main)"
     if case["via_event"]:
         call_desc += f" with $e={payload!r}"
     echos = [_strip(e) for e in events if e["type"] == "Echo"]
@@ -296,7 +511,17 @@ def prop(case):
         call_desc = "@override of `" + [l for l in text.split("\n") if l.startswith("flow ")][0 if case["override"]["first"] else 1] + "`: " + call_desc.replace("@override | ", [l for l in text.split("\n") if l.startswith("flow ")][1 if case["override"]["first"] else 0] + " | ")
         if any(e["type"] == "BaseRan" for e in events):
             raise Violation("base-flow-ran", f"{call_desc}: the overridden base flow ran")
-    if case.get("repeat"):
+    observed = []
+    b2 = identical = None
+    if activate:
+        b2 = _callee_model(case, second["pos"], second["named"])[0] if second else None
+        identical = second is not None and _skey(echo_exp) == _skey(b2)
+        if second is not None and not identical and echo_exp == b2:
+            return ok(skip="the two activations differ only by True/1/1.0 (whether these are identical parameters is unspecified)", labels=["activate"])
+        bad = _check_echos("activation", echos, echo_exp, b2, identical, call_desc, observed)
+        if bad:
+            raise Violation(bad[0], bad[1], detail={"observed": observed})
+    elif case.get("repeat"):
         if echos != [echo_exp, echo_exp]:
             kind = "default-not-fresh" if echos[:1] == [echo_exp] else "binding"
             raise Violation(kind, f"{call_desc} called twice (the callee appends to defaulted list parameters in place): callee saw {echos}, expected twice {echo_exp}")
@@ -309,6 +534,22 @@ def prop(case):
     if res != [caller_exp]:
         kind = "return-value" if res and {k: v for k, v in res[0].items() if k != "x"} == {k: v for k, v in caller_exp.items() if k != "x"} else "caller-variables-changed"
         raise Violation(kind, f"{call_desc}: caller observed {res}, expected [{caller_exp}]")
+    if activate:
+        # every Tick lets each running instance finish its body (in-place append, reassignments of parameters and $loc, return);
+        # an activated flow is then started again: the new instance must be bound like the activation it belongs to
+        reassigned = sorted({t for t, _ in case["assigns"] if t != "loc"} | set(case.get("wrap", ())) | set(_mutated(case)))
+        for j in range(case["ticks"]):
+            out = smh.feed(state, smh.ev("Tick"))
+            got = [_strip(e) for e in out if e["type"] == "Echo"]
+            bad = _check_echos(f"after restart #{j + 1} (the body {'changed ' + ', '.join('$' + t for t in reassigned) if reassigned else 'changed no parameter'})", got, echo_exp, b2, identical, call_desc, observed)
+            if bad:
+                kind = bad[0]
+                if _mutated(case) and all(all(e.get(k) == v for k, v in echo_exp.items() if k not in _mutated(case)) for e in got) and b2 is None:
+                    kind = "default-not-fresh"
+                raise Violation(kind, bad[1], detail={"observed": observed})
+            other = [e["type"] for e in out if e["type"] in ("Res", "Done2", "BaseRan")]
+            if other:
+                raise Violation("caller-variables-changed", f"{call_desc}: restart #{j + 1} made the caller or the base flow run again: {other}")
     n = len(case["sig"])
     k = len(case["pos"])
     used_default = any(i >= k and p["name"] not in case["named"] and "default" in p for i, p in enumerate(case["sig"]))
@@ -322,10 +563,40 @@ def prop(case):
         labels.append("omitted-no-default")
     if case["assigns"]:
         labels.append("callee-assigns")
+    if case.get("wrap"):
+        labels.append("callee-reassigns-param-from-itself")
     if case.get("override"):
         labels.append("override-with-other-signature")
     if case.get("repeat"):
         labels.append("called-twice")
-        if any(isinstance(p.get("default"), list) and i >= k and p["name"] not in case["named"] for i, p in enumerate(case["sig"])):
-            labels.append("defaulted-list-mutated-in-place")
+    if _mutated(case):
+        labels.append("defaulted-list-mutated-in-place")
+    if activate:
+        labels.append(f"activate-restarts{case['ticks']}")
+        labels.append("activate-from-" + case.get("act_from", "main"))
+        param_changed = bool({t for t, _ in case["assigns"] if t != "loc"} | set(case.get("wrap", ())))
+        if case["ticks"] and param_changed:
+            labels.append("activate-restart-after-param-reassigned")
+            bound = [p["name"] for i, p in enumerate(case["sig"]) if i < k or p["name"] in case["named"]]
+            changed = {t for t, _ in case["assigns"]} | set(case.get("wrap", ()))
+            if changed & set(p["name"] for p in case["sig"][:k]):
+                labels.append("activate-restart-reassigned-positional")
+            if changed & set(case["named"]):
+                labels.append("activate-restart-reassigned-named")
+            if changed & {p["name"] for p in case["sig"] if "default" in p and p["name"] not in bound}:
+                labels.append("activate-restart-reassigned-defaulted")
+            nt = True
+        if second:
+            labels.append("two-activations-" + ("identical" if identical else "distinct") + "-binding")
+            labels.append("second-activation-" + second.get("mode", "enumerated"))
+            prov1 = {p["name"] for i, p in enumerate(case["sig"]) if i < k or p["name"] in case["named"]}
+            prov2 = {p["name"] for i, p in enumerate(case["sig"]) if i < len(second["pos"]) or p["name"] in second["named"]}
+            with_default = {p["name"] for p in case["sig"] if "default" in p}
+            same_provided = all(_skey(echo_exp[nm]) == _skey(b2[nm]) for nm in prov1 & prov2)
+            if not identical and same_provided and (prov1 - prov2) & with_default:
+                labels.append("second-omits-defaulted-param-first-set")
+            if not identical and same_provided and (prov2 - prov1) & with_default:
+                labels.append("first-omits-defaulted-param-second-sets")
+            if not identical:
+                nt = True
     return ok(nt=nt, labels=labels, view={"call": call_desc, "echo": echo_exp, "returned": ret_exp})
